@@ -242,6 +242,31 @@ def ops_script(r, idx, ops):
     return {"cfg": cfg, "steps": steps, "tag": {"family": "ops", "ops": ops, "idx": idx}}
 
 
+def replay_periods_script(r, idx):
+    """The same validation tokens presented again and again over several token lifetimes: the reuse log
+    keeps its entries by expiry period, so a token used just before a period boundary and presented again
+    just after it (still within its lifetime) has to be found in the other period's entries."""
+    lv = r.choice([1000, 1500, 2000])
+    cfg = base_cfg(r, clients=2, incoming=r.choice(["validate", "validate", "accept"]),
+                   token_store="", token_log=r.choice(["default", "bloom:100000:100", "bloom:200000:100"]),
+                   validation_token_lifetime_ms=lv, retry_token_lifetime_ms=15000)
+    cfg["new_tokens"] = r.choice([2, 3, 4])
+    t = {"idle_ms": 1200}
+    cfg["server"] = dict(t)
+    cfg["client"] = dict(t)
+    steps = [{"do": "connect", "n": 1}, {"do": "run_until", "what": "connected", "max_us": 3000000},
+             {"do": "run", "us": r.choice([50000, 300000, lv * 500])}]
+    if r.random() < 0.5:
+        # a second generation of tokens, issued part of a lifetime later
+        steps += [{"do": "connect", "n": 2}, {"do": "run_until", "what": "connected", "max_us": 3000000},
+                  {"do": "run", "us": r.choice([50000, lv * 300])}]
+    for k in range(r.choice([6, 10, 16])):
+        steps.append({"do": "token", "op": "force", "src": {"k": "new", "i": r.choice([0, 0, 1, 2, -1])}, "mut": []})
+        steps.append({"do": "run", "us": r.choice([1000, lv * 100, lv * 250, lv * 400, lv * 700])})
+    steps.append({"do": "run", "us": 500000})
+    return {"cfg": cfg, "steps": steps, "tag": {"family": "replay-periods", "idx": idx}}
+
+
 def natural_script(r, idx):
     lr = r.choice([10, 20, 36, 37, 50, 200, 1000])
     cfg = base_cfg(r, clients=1, incoming=r.choice(["validate", "retry"]), retry_token_lifetime_ms=lr,
